@@ -92,15 +92,29 @@ Theorem C11_csv_shared_profile_nonvacuous :
   all_vehicle_ids (read_csv [] [wit_vrow "vehicle1"; wit_vrow "vehicle2"])
   = ["vehicle1_1"; "vehicle1_2"; "vehicle2_1"; "vehicle2_2"]%string.
 Proof. exact csv_shared_profile_witness. Qed.
-(* what is still refuted: the import is not total on the documented tables — DEMAND = i32::MIN overflows in `abs`
-   (exactly then; finding C11-F2).  That the imported problem passes the WHOLE validator is the campaign's oracle. *)
-Theorem C11_csv_panics_iff : forall rows,
-  csv_panics rows = true <-> exists r, In r rows /\ i32v (jr_demand r) = -2147483648.
-Proof. exact csv_panics_iff. Qed.
-Theorem C11_csv_total_refuted : exists rows, csv_panics rows = true.
-Proof. exact csv_total_refuted. Qed.
+(* the import is total since repair 1cad789 of /repo (finding C11-F2): tables with a DEMAND of i32::MIN — the one value whose
+   magnitude is not an i32, the type of a demand — are rejected (exactly those), and in every accepted table `demand.abs()`
+   is exact for every row, so with C11_csv_task_data every task carries |DEMAND| exactly.
+   That the imported problem passes the WHOLE validator is the campaign's oracle. *)
+Theorem C11_csv_rejects_iff : forall rows,
+  csv_rejects rows = true <-> exists r, In r rows /\ i32v (jr_demand r) = -2147483648.
+Proof. exact csv_rejects_iff. Qed.
+Theorem C11_csv_total : forall rows vrows,
+  read_csv_problem rows vrows = CsvErr \/ read_csv_problem rows vrows = CsvOk (read_csv rows vrows).
+Proof. exact csv_total. Qed.
+Theorem C11_csv_accepted_abs_exact : forall rows vrows p r,
+  read_csv_problem rows vrows = CsvOk p -> In r rows ->
+  p = read_csv rows vrows /\ exists a, abs_i32 (jr_demand r) = Some a /\ i32v a = Z.abs (i32v (jr_demand r)).
+Proof. exact csv_accepted_abs_exact. Qed.
+(* the former finding C11-F2, restated about the code BEFORE the repair: `abs` overflowed exactly for DEMAND = i32::MIN
+   (a panic with overflow checks); the repaired import rejects the witness table *)
+Theorem C11_csv_panics_prefix_iff : forall rows,
+  csv_panics_prefix rows = true <-> exists r, In r rows /\ i32v (jr_demand r) = -2147483648.
+Proof. exact csv_panics_prefix_iff. Qed.
+Theorem C11_csv_total_prefix_refuted : exists rows, csv_panics_prefix rows = true /\ read_csv_problem rows [] = CsvErr.
+Proof. exact csv_total_prefix_refuted. Qed.
 Theorem C11_csv_nonvacuous :
-  csv_panics [wit_jrow (Mk_i32 3 eq_refl)] = false /\
+  csv_rejects [wit_jrow (Mk_i32 3 eq_refl)] = false /\
   map Job_id (read_jobs [wit_jrow (Mk_i32 3 eq_refl); wit_jrow (Mk_i32 (-3) eq_refl)]) = ["job1"%string] /\
   NoDup (all_vehicle_ids (read_csv [] [wit_vrow "vehicle1"])).
 Proof. exact csv_nonvacuous_witness. Qed.
